@@ -49,6 +49,7 @@ fn oracles() -> Vec<(&'static str, Enumerate, Check)> {
         ("c21_load", o_reader::enum_load, o_reader::check_load),
         ("c18_parsers", o_parsers::enum_strings, o_parsers::check_string),
         ("c19_roundtrip", o_parsers::enum_roundtrip, o_parsers::check_roundtrip),
+        ("c19_random", o_parsers::enum_random_rules, o_parsers::check_roundtrip),
         ("c12_arith", o_arith::enum_arith, o_arith::check_arith),
         ("c06_mgu", o_mgu::enum_mgu, o_mgu::check_mgu),
         ("c09_mgu", o_mgu::enum_mgu_anon, o_mgu::check_mgu),
